@@ -31,19 +31,22 @@ Answers ==
   \cup [k : {"rpcError"}, cls : {"invalidParams", "versionCode", "internal", "other"}, mentions : BOOLEAN]
   \cup [k : {"silence"}]
 
-VARIABLES sup, pref, tracked, proposed, answer, phase, wire, outcome, batching, sessVersion
-vars == <<sup, pref, tracked, proposed, answer, phase, wire, outcome, batching, sessVersion>>
+VARIABLES sup, pref, tracked, proposed, answer, phase, wire, outcome, batching, sessVersion, wireBroken
+vars == <<sup, pref, tracked, proposed, answer, phase, wire, outcome, batching, sessVersion, wireBroken>>
 
 NoPref == "none"
 NoAnswer == [k |-> "none"]
 NoOutcome == [kind |-> "none"]
 
-InitWith(s, p, t) ==
-  /\ sup = s /\ pref = p /\ tracked = t
+\* wireBroken: the peer stops reading the client's stream after the initialize request, so the
+\* write of notifications/initialized fails
+InitWithFault(s, p, t, b) ==
+  /\ sup = s /\ pref = p /\ tracked = t /\ wireBroken = b
   /\ proposed = "none" /\ answer = NoAnswer /\ phase = "idle" /\ wire = <<>>
   /\ outcome = NoOutcome /\ batching = "unset" /\ sessVersion = "none"
 
-Init == \E s \in Lists, p \in U \cup {NoPref, Weird}, t \in BOOLEAN : InitWith(s, p, t)
+InitWith(s, p, t) == InitWithFault(s, p, t, FALSE)
+Init == \E s \in Lists, p \in U \cup {NoPref, Weird}, t \in BOOLEAN, b \in BOOLEAN : InitWithFault(s, p, t, b)
 
 \* ---- client ----
 Proposal == IF pref \in Range(sup) THEN pref ELSE sup[1]
@@ -53,7 +56,7 @@ Propose ==
   /\ proposed' = Proposal
   /\ wire' = Append(wire, <<"initialize", Proposal>>)
   /\ phase' = "waiting"
-  /\ UNCHANGED <<sup, pref, tracked, answer, outcome, batching, sessVersion>>
+  /\ UNCHANGED <<sup, pref, tracked, answer, outcome, batching, sessVersion, wireBroken>>
 
 \* ---- server (library) ----
 ServerAnswerTo(v) == IF EchoAnything THEN v ELSE IF v \in ServerSup THEN v ELSE Latest
@@ -64,7 +67,7 @@ Answered(a) ==
   /\ answer' = a
   /\ phase' = "answered"
   /\ sessVersion' = IF Paired THEN a.v ELSE sessVersion
-  /\ UNCHANGED <<sup, pref, tracked, proposed, wire, outcome, batching>>
+  /\ UNCHANGED <<sup, pref, tracked, proposed, wire, outcome, batching, wireBroken>>
 
 ServerAnswers ==
   IF Paired THEN Answered([k |-> "version", v |-> ServerAnswerTo(proposed)])
@@ -73,13 +76,13 @@ ServerAnswers ==
 FailWith(kind) ==
   /\ outcome' = [kind |-> kind]
   /\ phase' = "failed"
-  /\ UNCHANGED <<sup, pref, tracked, proposed, answer, wire, batching, sessVersion>>
+  /\ UNCHANGED <<sup, pref, tracked, proposed, answer, wire, batching, sessVersion, wireBroken>>
 
 Decide ==
   /\ phase = "answered"
   /\ CASE answer.k = "version" /\ answer.v \in Range(sup) ->
             /\ phase' = "accepted"
-            /\ UNCHANGED <<sup, pref, tracked, proposed, answer, wire, outcome, batching, sessVersion>>
+            /\ UNCHANGED <<sup, pref, tracked, proposed, answer, wire, outcome, batching, sessVersion, wireBroken>>
        [] answer.k = "version" /\ answer.v \notin Range(sup) -> FailWith("VersionMismatch")
        [] answer.k = "rpcError" ->
             \* -32602 mentioning the protocol version is turned into a mismatch; everything
@@ -88,20 +91,25 @@ Decide ==
        [] answer.k = "malformed" -> FailWith("Exception")
        [] answer.k = "silence" -> FailWith("Timeout")
 
+\* the notification cannot be written: the handshake fails, nothing was sent, nothing is tracked
+InitializedWriteFails ==
+  /\ phase = "accepted" /\ wireBroken
+  /\ FailWith("Exception")
+
 SendInitialized ==
-  /\ phase = "accepted"
+  /\ phase = "accepted" /\ ~wireBroken
   /\ wire' = Append(wire, <<"initialized", "-">>)
   /\ phase' = "notified"
-  /\ UNCHANGED <<sup, pref, tracked, proposed, answer, outcome, batching, sessVersion>>
+  /\ UNCHANGED <<sup, pref, tracked, proposed, answer, outcome, batching, sessVersion, wireBroken>>
 
 Return ==
   /\ phase = "notified"
   /\ outcome' = [kind |-> "ok", version |-> answer.v]
   /\ batching' = IF tracked THEN (IF answer.v \in Batching THEN "on" ELSE "off") ELSE batching
   /\ phase' = "done"
-  /\ UNCHANGED <<sup, pref, tracked, proposed, answer, wire, sessVersion>>
+  /\ UNCHANGED <<sup, pref, tracked, proposed, answer, wire, sessVersion, wireBroken>>
 
-Next == Propose \/ ServerAnswers \/ Decide \/ SendInitialized \/ Return
+Next == Propose \/ ServerAnswers \/ Decide \/ InitializedWriteFails \/ SendInitialized \/ Return
 Spec == Init /\ [][Next]_vars
 
 -----------------------------------------------------------------------------
@@ -124,6 +132,6 @@ AnswerSupported == Paired /\ answer.k = "version" => answer.v \in ServerSup
 EchoWhenSupported == Paired /\ answer.k = "version" /\ proposed \in ServerSup => answer.v = proposed
 SessionCarriesAnswer == Paired /\ answer.k = "version" => sessVersion = answer.v
 AgreedOrMismatch ==
-  Paired /\ Finished => \/ outcome.kind = "ok" /\ outcome.version \in Range(sup) \cap ServerSup
+  Paired /\ Finished /\ ~wireBroken => \/ outcome.kind = "ok" /\ outcome.version \in Range(sup) \cap ServerSup
                         \/ outcome.kind = "VersionMismatch"
 =============================================================================
